@@ -539,6 +539,8 @@ class Engine:
         cont = self.ev(cnode, st)
         ty = cont.ty
         if isinstance(ty, DictT):
+            if isinstance(item.ty, TupleT) and isinstance(ty.k, TupleT) and len(item.ty.elts) != len(ty.k.elts):
+                return z3.BoolVal(False)  # tuples of different length are never equal
             item = self.coerce(item, ty.k, st, node)
             return z3.Select(ty.has(cont.t), item.t)
         if isinstance(ty, SetT):
@@ -580,6 +582,26 @@ class Engine:
         ty = TupleT(*[v.ty for v in vals])
         return Val(ty.mk([v.t for v in vals]), ty)
 
+    def ev_Dict(self, n, st):
+        if not n.keys:
+            from . import lib
+            return Val(None, lib.EmptyDictT())
+        ks = [self.ev(k, st) for k in n.keys]
+        vs = [self.ev(v, st) for v in n.values]
+        ty = DictT(ks[0].ty, vs[0].ty)
+        t = ty.empty()
+        for k, v in zip(ks, vs):
+            t = ty.store(t, self.coerce(k, ty.k, st, n).t, self.coerce(v, ty.v, st, n).t)
+        return Val(t, ty)
+
+    def ev_Set(self, n, st):
+        vs = [self.ev(v, st) for v in n.elts]
+        ty = SetT(vs[0].ty)
+        t = ty.empty()
+        for v in vs:
+            t = z3.Store(t, self.coerce(v, ty.elt, st, n).t, True)
+        return Val(t, ty)
+
     def ev_Attribute(self, n, st):
         base = self.ev(n.value, st)
         return self.getattr(base, n.attr, st, n)
@@ -616,10 +638,17 @@ class Engine:
         base = self.ev(n.value, st)
         ty = base.ty
         if isinstance(n.slice, ast.Slice):
+            if isinstance(ty, StrT) and n.slice.step is None and n.slice.upper is None and isinstance(n.slice.lower, ast.Constant) and n.slice.lower.value == 1:
+                return Val(self.uf("str_tail", [STR], STR)(base.t), STR)
             return self.slice_list(base, n.slice, st, n)
         if isinstance(ty, OptT):
             base = self.coerce(base, ty.inner, st, n, "subscript base")
             ty = base.ty
+        if isinstance(ty, StrT):
+            if isinstance(n.slice, ast.Constant) and n.slice.value == 0:
+                self.assumptions_used.add("s[0] / s[1:] on identity strings are uninterpreted head/tail functions (s non-empty is the caller's precondition)")
+                return Val(self.uf("str_head", [STR], STR)(base.t), STR)
+            raise Unsupported("string index at line %s" % n.lineno)
         if isinstance(ty, ListT):
             i = self.index_list(base, n.slice, st, n)
             return Val(z3.Select(ty.arr(base.t), i), ty.elt)
@@ -864,6 +893,8 @@ class Engine:
         post_env = dict(argvals)
         for m in con.modifies:
             post_env[m] = Val(con.params[m].fresh("post_" + m), con.params[m])
+            for f in type_invariant(post_env[m].t, con.params[m]):
+                st.assume(f)
         res = None
         if not isinstance(con.returns, NoneT):
             if con.pure:
@@ -871,9 +902,11 @@ class Engine:
                 res = Val(f(*[argvals[p].t for p in con.params]), con.returns)
             else:
                 res = Val(con.returns.fresh("ret_" + con.func.replace(".", "_")), con.returns)
+            for f in type_invariant(res.t, con.returns):
+                st.assume(f)
         subp = SpecEnv(self, con, post_env, old=argvals, result=res)
         for k, e in con.ensures.items():
-            f = subp.ev_bool(e, st)
+            f = subp.ev_bool(e["expr"] if isinstance(e, dict) else e, st)
             st.assume(f if not self.guards else z3.Implies(z3.And(*self.guards), f))
         for e in con.post_hints:
             st.assume(subp.ev_bool(e, st))
@@ -890,17 +923,14 @@ class Engine:
     # ---- assignment ------------------------------------------------------------------------------
     def assign_target(self, tgt, val, st, node):
         if isinstance(tgt, ast.Name):
-            cur = st.env.get(tgt.id)
-            decl = self.c.locals.get(tgt.id) or (cur.ty if cur is not None and not isinstance(cur.ty, EmptyListT) else None)
+            decl = self.c.locals.get(tgt.id)
+            if decl is None and getattr(self, "in_ghost", False):
+                decl = self.c.ghost.get(tgt.id)
             if isinstance(val.ty, EmptyListT):
                 if decl is not None and isinstance(decl, ListT):
                     val = Val(decl.empty(), decl)
             elif decl is not None and decl != val.ty:
-                try:
-                    val = self.coerce(val, decl, st, node, "assignment to " + tgt.id)
-                except Unsupported:
-                    if tgt.id in self.c.locals:
-                        raise
+                val = self.coerce(val, decl, st, node, "assignment to " + tgt.id)
             st.env[tgt.id] = val
             if tgt.id in st.defd:
                 st.defd[tgt.id] = z3.BoolVal(True)
@@ -1339,11 +1369,15 @@ class Engine:
                     v = Val(decl.empty(), decl)
                 if isinstance(v.ty, Ty):
                     st.env[nm] = Val(v.ty.fresh("h_" + nm), v.ty)
-                if nm in st.defd:
+                    for f in type_invariant(st.env[nm].t, v.ty):
+                        st.assume(f)
+                if nm in st.defd and not z3.is_true(st.defd[nm]):
                     st.defd[nm] = z3.FreshConst(z3.BoolSort(), "def_" + nm)
             elif nm in self.c.locals:
                 ty = self.c.locals[nm]
                 st.env[nm] = Val(ty.fresh("h_" + nm), ty)
+                for f in type_invariant(st.env[nm].t, ty):
+                    st.assume(f)
                 st.defd[nm] = z3.FreshConst(z3.BoolSort(), "def_" + nm)
             # else: first bound inside the body and not declared: unbound at every loop head (stricter than Python)
 
@@ -1515,12 +1549,16 @@ class Engine:
         body = self.fn.body
         if not self.c.fragment:
             return body
-        start_pat, end_pat = self.c.fragment
+        start_pat, end_pat = self.c.fragment[0], self.c.fragment[1]
+        skip = [self.c.fragment[2] if len(self.c.fragment) > 2 else 0]
 
         def find(stmts):
             heads = [ast.unparse(s).split("\n")[0] for s in stmts]
             for i, h in enumerate(heads):
                 if h.startswith(start_pat):
+                    if skip[0] > 0:
+                        skip[0] -= 1
+                        continue
                     if isinstance(end_pat, int):
                         return stmts[i:i + end_pat]
                     for j in range(i, len(heads)):
@@ -1553,10 +1591,14 @@ class Engine:
             v = Val(z3.Const("in_" + p, ty.sort()), ty)
             st.env[p] = v
             self.inputs.append((p, v))
+            for f in type_invariant(v.t, ty):
+                st.assume(f)
         for g, ty in self.c.ghost.items():
             v = Val(z3.Const("gh_" + g, ty.sort()), ty)
             st.env[g] = v
             self.inputs.append((g, v))
+            for f in type_invariant(v.t, ty):
+                st.assume(f)
         st.old = dict(st.env)
         return st
 
@@ -1593,9 +1635,20 @@ class Engine:
                         continue
                 self.return_states.append((s2, rv))
                 sp = SpecEnv(self, c, None, old=s2.old, result=rv)
-                for name, e in c.ensures.items():
-                    g = sp.ev_bool(e, s2)
-                    self.oblige(s2, "post", name, g)
+                proved = {}
+                for name, e in sorted(c.ensures.items(), key=lambda kv: isinstance(kv[1], dict)):
+                    if isinstance(e, dict):
+                        # derived postcondition: proved from the precondition and the named earlier postconditions only
+                        g = sp.ev_bool(e["expr"], s2)
+                        hyps = [SpecEnv(self, c, None).ev_bool(r, _old_state(s2)) for r in c.requires]
+                        hyps += [proved[k] for k in e["from"]]
+                        o = Oblig("%s::post::%s" % (c.qual, name), "post", hyps, g)
+                        o.inputs = self.inputs
+                        self.obligs.append(o)
+                    else:
+                        g = sp.ev_bool(e, s2)
+                        self.oblige(s2, "post", name, g)
+                    proved[name] = g
             elif kind == "raise":
                 exc = payload
                 if exc in c.exc_ensures:
@@ -1672,6 +1725,27 @@ def _old_state(st):
     s = st.copy()
     s.env = dict(st.old)
     return s
+
+
+def type_invariant(t, ty, depth=0):
+    """facts that hold for every value of the type (list lengths are non-negative)"""
+    out = []
+    if depth > 3:
+        return out
+    if isinstance(ty, ListT):
+        out.append(ty.len(t) >= 0)
+    elif isinstance(ty, OrdDictT):
+        out.append(ty.kl.len(ty.keys(t)) >= 0)
+    elif isinstance(ty, ObjT):
+        for f in ty.order:
+            out += type_invariant(ty.get(t, f), ty.fields[f], depth + 1)
+    elif isinstance(ty, TupleT):
+        for i, et in enumerate(ty.elts):
+            out += type_invariant(ty.get(t, i), et, depth + 1)
+    elif isinstance(ty, OptT):
+        for f in type_invariant(ty.val(t), ty.inner, depth + 1):
+            out.append(z3.Implies(ty.is_some(t), f))
+    return out
 
 
 class PathDead(Exception):
